@@ -181,6 +181,7 @@ fn boxing_case(cs: &mut Cases, class: &str, name: &str, ir: &Value, cfg: &GenCfg
     }
     // every struct / enum of the emitted tree by name
     let mut structs: BTreeMap<String, Vec<syn::Type>> = BTreeMap::new();
+    let mut struct_ops: BTreeMap<String, Vec<bool>> = BTreeMap::new();
     let mut enums: BTreeMap<String, Vec<Option<syn::Type>>> = BTreeMap::new();
     for text in tree.values() {
         if let Ok(file) = syn::parse_file(text) {
@@ -189,6 +190,7 @@ fn boxing_case(cs: &mut Cases, class: &str, name: &str, ir: &Value, cfg: &GenCfg
                     syn::Item::Struct(st) => {
                         if let syn::Fields::Named(n) = &st.fields {
                             structs.entry(st.ident.to_string()).or_insert_with(|| n.named.iter().map(|f| f.ty.clone()).collect());
+                            struct_ops.entry(st.ident.to_string()).or_insert_with(|| n.named.iter().map(|f| f.attrs.iter().any(|a| quote::quote!(#a).to_string().contains("DoubleOps"))).collect());
                         }
                     }
                     syn::Item::Enum(e) => {
@@ -279,7 +281,8 @@ fn boxing_case(cs: &mut Cases, class: &str, name: &str, ir: &Value, cfg: &GenCfg
                     for (i, f) in fields.iter().enumerate() {
                         if let (Some(sx), Some(Some(ty))) = (type_sexp(&f["type"]), tys.get(i)) {
                             let has_key_double = sx.contains("(set,") || sx.contains("(map,");
-                            cs.push("rust-type", format!("rusttype {}", sx), norm_type(ty), has_key_double && sx.contains("DOUBLE"), format!("the type of field `{}` of {} in {}", f["fieldName"].as_str().unwrap_or(""), rust_name, name));
+                            let ops = struct_ops.get(&rust_name).and_then(|v| v.get(i)).copied().unwrap_or(false);
+                            cs.push("rust-type", format!("rusttype {}", sx), format!("{}{}", norm_type(ty), if ops { " double-ops" } else { "" }), has_key_double && sx.contains("DOUBLE"), format!("the type of field `{}` of {} in {}", f["fieldName"].as_str().unwrap_or(""), rust_name, name));
                         }
                     }
                 }
